@@ -69,8 +69,17 @@ class SeqIEngine(SeqEngine):
     def normal_call(self, i, op):
         w, mdl = self.world, self.model
         exp = mdl.apply(op)
+        mark = len(w.run.log)
         out, extra = w.exec_op(op)
         self.res.flags.add("op:" + op["op"])
+        if self.interrupted and out == ("exc", "PidRefsDoesNotExist") and op["op"] in ("delete", "retrieve", "hexdigest"):
+            # rejected for an unknown pid: the store is unchanged (C17), also in states interruptions left behind
+            muts = [e.brief() for e in w.run.log[mark:] if e.kind in self.RO_FORBIDDEN and e.cls not in ("input", "sandbox")]
+            if muts:
+                self.res.violations.append(Violation(
+                    {"C17"}, "rejected-changed", "seqi:unknown-pid-rejection-wrote:%s" % op["op"],
+                    {"op": op, "pid": w.pids[op["pid"]], "mutating_events": muts[:8], "interruptions": self.history}, i))
+                return
         if not exp.matches(out):
             if not self.interrupted:
                 # an ordinary disagreement before any interruption: not this engine's subject
